@@ -37,15 +37,17 @@ def expect_value(label, kind):
 
 def cases(tier, seed):
     if tier == 'quick':
-        blocks = [('int', [0, 1, None], 3)]
+        blocks = [('int', [0, 1, None], 3, 3)]
     else:
-        blocks = [('int', [0, 1, 2, None], 3), ('int', [0, 1, None], 4), ('str', [0, 1, None], 3)]
+        blocks = [('int', [0, 1, 2, None], 3, 3), ('int', [0, 1, None], 4, 3), ('int', [0, 1, None], 3, 4),
+                  ('str', [0, 1, None], 3, 3)]
     seen_pairs = set()
-    for kd, pool, mx in blocks:
-        keyseqs = [list(c) for n in range(0, mx + 1) for c in itertools.product(pool, repeat=n)]
+    for kd, pool, ml, mr in blocks:
+        lseqs = [list(c) for n in range(0, ml + 1) for c in itertools.product(pool, repeat=n)]
+        rseqs = [list(c) for n in range(0, mr + 1) for c in itertools.product(pool, repeat=n)]
         idx = 0
-        for lk in keyseqs:
-            for rk in keyseqs:
+        for lk in lseqs:
+            for rk in rseqs:
                 idx += 1
                 tag = (kd, tuple(lk), tuple(rk))
                 if tag in seen_pairs:          # membership only: no iteration over the set
@@ -53,7 +55,7 @@ def cases(tier, seed):
                 seen_pairs.add(tag)
                 for kind in JOINS:
                     labels = VALID + ['default'] + INVALID_MAIN
-                    if tier != 'quick' or idx % 7 == 0:
+                    if idx % (7 if tier == 'quick' else 5) == 0:
                         labels = labels + INVALID_MORE
                     for label in labels:
                         yield {'op': kind, 'expect': label, 'kind': kd, 'lk': lk, 'rk': rk}
@@ -147,13 +149,14 @@ def nontrivial(case):
 
 def bound(tier):
     if tier == 'quick':
-        b = [{'kind': 'int', 'key_values': '{None,0,1}', 'max_rows_per_side': 3}]
+        b = [{'kind': 'int', 'key_values': '{None,0,1}', 'max_left_rows': 3, 'max_right_rows': 3}]
     else:
-        b = [{'kind': 'int', 'key_values': '{None,0,1,2}', 'max_rows_per_side': 3},
-             {'kind': 'int', 'key_values': '{None,0,1}', 'max_rows_per_side': 4},
-             {'kind': 'str', 'key_values': "{None,'a','b'}", 'max_rows_per_side': 3}]
+        b = [{'kind': 'int', 'key_values': '{None,0,1,2}', 'max_left_rows': 3, 'max_right_rows': 3},
+             {'kind': 'int', 'key_values': '{None,0,1}', 'max_left_rows': 4, 'max_right_rows': 3},
+             {'kind': 'int', 'key_values': '{None,0,1}', 'max_left_rows': 3, 'max_right_rows': 4},
+             {'kind': 'str', 'key_values': "{None,'a','b'}", 'max_left_rows': 3, 'max_right_rows': 3}]
     return {'key_sequences': b, 'joins': JOINS,
-            'expect': VALID + ['<omitted>'] + INVALID_MAIN + ['(every 7th pair in quick, all in thorough:)'] + INVALID_MORE}
+            'expect': VALID + ['<omitted>'] + INVALID_MAIN + ['(every 7th pair in quick, every 5th in thorough:)'] + INVALID_MORE}
 
 
 if __name__ == '__main__':
